@@ -11,6 +11,7 @@ from .. import runsuite as R
 
 PROP = "C13"
 PROP_V = "theories/props/C13.v"
+MODEL_AREAS = ('front', 'tc', 'run')
 NEED_MODEL = True
 
 
